@@ -122,7 +122,7 @@ package pool
 //@ loop 1 invariant [skip] has(skipPeers, selfNodeID) && selfNodeID == store.NodeID(nodeID) && peers == store.lastNodePeers && r == store.lastActiveHosts
 //@        && (forall k int :: off(peers) <= k && k < off(peers) + len(peers) ==> has(skipPeers, elems(peers)[k].ID))
 //@ loop 1 invariant [candidates] forall q int :: off(remotes) <= q && q < off(remotes) + len(remotes) ==>
-//@        store.inNodes(r, elems(remotes)[q].Node) && !has(skipPeers, elems(remotes)[q].Node.ID)
+//@        store.inNodes(r, elems(remotes)[q].Node) && !has(skipPeers, elems(remotes)[q].Node.ID) && elems(remotes)[q].Service != nil
 //@ loop 1 invariant [count] len(remotes) <= rangeidx && numRequestHosts > 0 && (len(remotes) < numRequestHosts || rangeidx == 0)
 //@ loop 2 invariant [lock] !held(p.mu) && spawncount(0) == rangeidx && len(remotes) <= numRequestHosts
 //@ loop 2 invariant [asked] forall k int :: 0 <= k && k < spawncount(0) ==> spawnarg(0, 1)[k] == elems(remotes)[off(remotes) + k].Node
